@@ -117,6 +117,13 @@ func (t *DestinationTask) Do(ctx context.Context, batch *Batch) error {
 		}
 	}
 
+	if ackCount < len(positions) {
+		// The destination answered every Ack call but confirmed fewer records
+		// than were written (e.g. empty ack responses). Returning nil here
+		// would let the unconfirmed records be acked to the source.
+		return cerrors.Errorf("destination confirmed only %d of %d written records", ackCount, len(positions))
+	}
+
 	return nil
 }
 
